@@ -12,6 +12,7 @@ real store (count, digest, changed records), under real double SHA-256.
   gcq <G>                  -> ok
   sync                     -> n=.. dg=.. ch=..
   reset                    -> ok
+  restore <k>=<v>,...      -> r=<root> n=.. dg=.. ch=..   (Billet restore of the trie with these contents into an empty store)
   get <h> <key>            -> <value> | none
   wild                     -> ok
   sub: p:<key>:<val>  d:<key>  b:<key>=<val|del>,...
@@ -130,6 +131,14 @@ def step (d : DSt) (ws : List String) : DSt × String :=
     | none => (d, "bad-op")
   | ["sync"] => ({ d with printed := d.s.store }, storeObs d.printed d.s.store)
   | ["reset"] => ({ d with s := reset d.s }, "ok")
+  | ["restore", es] =>
+    match (if es == "-" then some [] else (splitOn es ',').mapM parseKV) with
+    | some m =>
+      let t := putBatch .empty (mapToBatch m)
+      let st := restoreAll H d.s.mode [] t
+      ({ s := { d.s with root := t, store := st }, printed := st },
+        s!"r={Hex.encode (rootHash H t)} {storeObs [] st}")
+    | none => (d, "bad-op")
   | ["wild"] => (d, "ok")
   | ["get", h, k] =>
     match h.toNat?, Hex.decode k with
